@@ -101,6 +101,16 @@ class Check:
             self.seed = int(os.environ.get("VERIF_SEED", "1"))
         except ValueError:
             self.seed = 1
+        if self.replay:
+            self.replay = os.path.abspath(self.replay)
+            # a replay re-runs with the tier and seed recorded in the replay file's header
+            try:
+                head = open(self.replay).readline()
+                m = re.match(r"# property \S+\s+tier (\S+)\s+seed (\d+)", head)
+                if m:
+                    self.tier, self.seed = m.group(1), int(m.group(2))
+            except OSError:
+                pass
         self.work = os.path.join(VERIF, ".work", "%s-%d" % (pid, os.getpid()))
         shutil.rmtree(self.work, ignore_errors=True)
         os.makedirs(self.work)
